@@ -574,6 +574,8 @@ static void parse_hostname(struct iauth_request *req, char hostname[])
         iauth_send_opers("ircd sent garbage: -1 N ...");
         return;
     }
+    if (!hostname)
+        return;
     if (req->hostname[0] != '\0')
         return;
     strncpy(req->hostname, hostname, HOSTLEN);
@@ -613,6 +615,8 @@ static void parse_password(struct iauth_request *req, char password[])
         iauth_send_opers("ircd sent garbage: -1 P ...");
         return;
     }
+    if (!password)
+        return;
     BITSET_SET(req->flags, IAUTH_GOT_PASSWORD);
     for (node = set_first(iauth_modules); node; node = set_next(node)) {
         plugin = ENCLOSING_STRUCT(node, struct iauth_module, node);
@@ -681,6 +685,8 @@ static void parse_nick(struct iauth_request *req, char nick[])
         iauth_send_opers("ircd sent garbage: -1 n ...");
         return;
     }
+    if (!nick)
+        return;
     strncpy(req->nickname, nick, NICKLEN);
     BITSET_SET(req->flags, IAUTH_GOT_NICK);
     for (node = set_first(iauth_modules); node; node = set_next(node)) {
@@ -855,6 +861,12 @@ static void iauth_read(evutil_socket_t fd, short events, void *iauth_in_v)
         }
         if (argc < ARRAY_LENGTH(argv))
             argv[argc] = NULL;
+
+        /* A line with nothing after the id has no command to dispatch. */
+        if (argc == 0) {
+            free(line);
+            continue;
+        }
 
         /* If we should know the id, but don't, bail. */
         if (id == -1 || argv[0][0] == 'C')
